@@ -9,6 +9,7 @@ Peers == 1..N
 \* configurations (cfg files cannot hold records)
 CfgA == {[par |-> 2, nr |-> 3, pto |-> 1, pred |-> FALSE]}
 CfgB == {[par |-> 1, nr |-> 2, pto |-> 1, pred |-> FALSE], [par |-> 2, nr |-> 2, pto |-> 2, pred |-> TRUE], [par |-> 3, nr |-> 1, pto |-> 1, pred |-> FALSE]}
+CfgC == {[par |-> 1, nr |-> 2, pto |-> 1, pred |-> FALSE]}
 CfgSim == {[par |-> p, nr |-> r, pto |-> 2, pred |-> b] : p \in 1..3, r \in 1..4, b \in BOOLEAN}
 Match(p) == p % 2 = 1          \* which peers' records satisfy the predicate
 
@@ -22,7 +23,11 @@ Init == \E cfg \in CFGS : \E cands \in InitCands :
 
 \* in simulation a peer may be reported with different records, some satisfying the predicate and some not
 Ms(a) == IF DEPTH > 0 THEN BOOLEAN ELSE {Match(a)}
-NewsSets(p) == {<<>>} \cup UNION {{<<<<a, m>>>> : m \in Ms(a)} : a \in Peers \ {p}}
+\* answers that name more peers than the lookup wants results (MAXNEWS >= 3; MAXNEWS = 33: such answers and empty ones only)
+Triples(p) == {<<<<t[1], Match(t[1])>>, <<t[2], Match(t[2])>>, <<t[3], Match(t[3])>>>> :
+                 t \in {x \in (Peers \ {p}) \X (Peers \ {p}) \X (Peers \ {p}) : x[1] # x[2] /\ x[2] # x[3] /\ x[1] # x[3]}}
+NewsSets(p) == IF MAXNEWS = 33 THEN {<<>>} \cup Triples(p) ELSE (IF MAXNEWS >= 3 THEN Triples(p) ELSE {}) \cup
+               {<<>>} \cup UNION {{<<<<a, m>>>> : m \in Ms(a)} : a \in Peers \ {p}}
                \cup (IF MAXNEWS >= 2 THEN UNION {{<<<<ab[1], m1>>, <<ab[2], m2>>>> : m1 \in Ms(ab[1]), m2 \in Ms(ab[2])} : ab \in (Peers \ {p}) \X (Peers \ {p})} ELSE {})
 Ops == {[o |-> "next"]} \cup {[o |-> "tick", d |-> 1]}
        \cup {[o |-> "on_failure", p |-> contacted[i]] : i \in 1..Len(contacted)}
@@ -59,5 +64,6 @@ C10Result == done => LET r == Result(q) IN
 Emit == DEPTH = 0 \/ Len(hist) <= DEPTH \/ PrintT(<<"REPLAY", ToJson(hist)>>)
 GoalStalled == ~(q.prog = "Stalled" /\ q.nw > q.cfg.par)
 GoalLateSuccess == ~(lastop.o = "on_success" /\ \E i \in 1..Len(q.ps) : q.ps[i].p = lastop.p /\ q.ps[i].st = "Succeeded" /\ q.nw = 0 /\ now >= 2)
+GoalShortAfterBigAnswer == ~(done /\ Len(Result(q)) < q.cfg.nr /\ \E i \in 1..Len(hist) : hist[i].o = "on_success" /\ Len(hist[i].news) > q.cfg.nr)
 GoalFinishFull == ~(done /\ Len(Result(q)) = q.cfg.nr /\ q.cfg.nr >= 2)
 =============================================================================
